@@ -1,0 +1,14 @@
+//go:build verif
+
+package varutil
+
+import "math/rand"
+
+// VerifSetSource replaces the package's random source (conformance harness only) and returns the previous one.
+func VerifSetSource(s rand.Source) (old rand.Source) {
+	srcMu.Lock()
+	defer srcMu.Unlock()
+	old = src
+	src = s
+	return old
+}
